@@ -7,6 +7,7 @@ import (
 	"go/token"
 	"go/types"
 	"math/big"
+	"strconv"
 	"strings"
 )
 
@@ -117,6 +118,17 @@ func (x *Exec) libCall(st *State, q string, recv *Value, args []*Value, sig *typ
 		x.assume(st, x.b.Le(x.b.Int(0), errV.L["tag"], true))
 		rv := x.b.Fresh("parsed", x.intSort(64))
 		x.assume(st, x.b.Implies(ok, x.b.Eq(rv, val)))
+		if len(args) == 3 && args[2].L != nil && args[2].scalar().IsConst() {
+			// a successful parse fits the requested bit size
+			if bs := args[2].scalar().SVal().Int64(); bs >= 1 && bs <= 63 {
+				okb := x.b.App("uf.parseIntFits"+strconv.Itoa(int(bs)), BoolSort, s)
+				x.assume(st, x.b.Implies(x.b.Eq(errV.L["tag"], x.b.Int(0)), okb))
+				lim := new(big.Int).Lsh(big.NewInt(1), uint(bs-1))
+				x.assume(st, x.b.Implies(okb, x.b.And(
+					x.b.Le(x.b.Num(new(big.Int).Neg(lim), x.intSort(64)), rv, true),
+					x.b.Lt(rv, x.b.Num(lim, x.intSort(64)), true))))
+			}
+		}
 		return []*Value{scalarV(res(0), rv), errV}, true
 	case q == "strconv.Atoi":
 		s := args[0].scalar()
@@ -152,6 +164,10 @@ func (x *Exec) libCall(st *State, q string, recv *Value, args []*Value, sig *typ
 		return []*Value{scalarV(res(0), r)}, true
 	case q == "strings.EqualFold" || q == "strings.HasPrefix" || q == "strings.HasSuffix" || q == "strings.Contains" || q == "strings.ContainsAny" || q == "strings.ContainsRune":
 		r := x.b.App(sanitize("lib."+q), BoolSort, args[0].scalar(), args[1].scalar())
+		if (q == "strings.HasPrefix" || q == "strings.HasSuffix" || q == "strings.Contains") && args[0].scalar().Sort == StrSort && args[1].scalar().Sort == StrSort {
+			// a string that has p as a part is at least as long as p
+			x.assume(st, x.b.Implies(r, x.b.Le(x.strLen(args[1].scalar()), x.strLen(args[0].scalar()), true)))
+		}
 		return []*Value{scalarV(boolT, r)}, true
 	case q == "time.Now":
 		now := x.b.Fresh("now", x.intSort(64))
